@@ -413,4 +413,45 @@ def run(prog, ctx):
     res.explanation = ("who-may-grow over all %d functions of the crate for the six fixed-size buffers; capacity-rule guards and formulas for HLL "
                        "list/set/aux promotion, t-digest buffering and capacity; HLL image-size formulas evaluated over lg_k 4..=21" % len(allf))
     res.not_decided = "CPC's empirical 99.9% size bound"
+    # ---------------- C18.R a coupon set rebuilt from an image gets the table size the image records.  The update path promotes a set to
+    # the register array when its table has reached lg_k - 3 *exactly*; a reader that sizes the table from anything else (the coupon
+    # count, a load rule of its own) can land one size above and the set is then never promoted: it doubles with the stream.  By
+    # value: the argument of the set constructor in the set reader for every recorded size 5..=18 and every count the size admits.
+    n_r = 0
+    hs = "hll::hash_set::HashSet"
+    rd = C.fn_one(prog, hs, "deserialize")
+    if rd is not None:
+        srd = Sym(prog, rd)
+        for b, site in rd.calls():
+            cal = site.get("callee") or ""
+            if not (cal.startswith(hs + "::") and cal.rsplit("::", 1)[-1] in ("new", "with_lg_size", "with_capacity")) or len(site["args"]) != 1:
+                continue
+            e = srd.at(b, "t").operand(site["args"][0])
+            lv = formula.leaves(e)
+            lg_keys = [k for k in lv if lv[k][0] in ("param", "var") and "lg" in k]
+            cnt_keys = [k for k in lv if k not in lg_keys and (k.startswith("read_") or lv[k][0] in ("param", "var"))]
+            n_r += 1
+            if len(lg_keys) != 1 or len(cnt_keys) > 1:
+                res.tri(None, "C18.R", "C18.R|%s" % rd.id, "size argument `%s` not recognised" % show(e)[:60])
+                continue
+            verdict, wit = True, ""
+            for lg in range(5, 19):
+                full = 3 * (1 << lg) // 4
+                for cnt in sorted({0, 1, full // 2, full - 1, full}):
+                    env = {"@prog": prog, lg_keys[0]: lg}
+                    if cnt_keys:
+                        env[cnt_keys[0]] = cnt
+                    try:
+                        got = formula.evaluate(e, env)
+                    except (formula.Uneval, TypeError, ZeroDivisionError):
+                        verdict = None
+                        break
+                    if got != lg and verdict:
+                        verdict, wit = False, "recorded lg_arr %d with %d coupons -> table of lg size %s" % (lg, cnt, got)
+                if verdict is None:
+                    break
+            res.tri(verdict, "C18.R", "C18.R|%s" % rd.id, "the set reader sizes the table with `%s`: %s; the promotion test `lg_size == lg_k - 3` is then never met for an image "
+                    "taken at the last set size and the set grows without bound" % (show(e)[:80], wit), rd.id, site.get("span"),
+                    sample={"rule": "C18.R", "size": show(e)[:80]})
+    res.rule("C18.R", n_r, 1, "set constructions in the coupon-set reader")
     return res
